@@ -180,6 +180,75 @@ func c05Scenarios(tier string) []*world.Scenario {
 			out = append(out, sc)
 		}
 	}
+	// the slot the running proxy assigns to the key of SINGLE-key requests and scripts (other decoding branches than the
+	// multi-key commands): every one-byte key, keys with control bytes / CR / LF / NUL / high bytes inside and inside the
+	// tag, keys that only differ in such a byte; the request must arrive, unchanged, at the owner of the specification slot
+	var singles []string
+	for b := 0; b < 256; b++ {
+		singles = append(singles, string([]byte{byte(b)}))
+	}
+	for _, c := range []string{"\r", "\n", "\r\n", "\x00", "\t", " ", ".", "\"", "\\", "\x7f", "\x80", "\xff", "%", "*", "$"} {
+		singles = append(singles, "a"+c+"b", c+"ab", "ab"+c, "{a"+c+"}x", "x{"+c+"}", "{u}"+c, c+"{u}", "a"+c+"b"+c+"c")
+	}
+	singles = append(singles, pool...)
+	type sk struct {
+		kind string
+		mk   func(k string) []byte
+		pos  int
+	}
+	kinds := []sk{
+		{"get", func(k string) []byte { return world.Cmd("get", k) }, 1},
+		{"set", func(k string) []byte { return world.Cmd("SET", k, "v") }, 1},
+		{"eval", func(k string) []byte { return world.Cmd("eval", "return 1", "1", k) }, 3},
+	}
+	if tier == "thorough" {
+		kinds = append(kinds, sk{"evalsha", func(k string) []byte { return world.Cmd("EVALSHA", "abc", "1", k, "x") }, 3},
+			sk{"hset", func(k string) []byte { return world.Cmd("hset", k, "f", "v") }, 1},
+			sk{"expire", func(k string) []byte { return world.Cmd("expire", k, "10") }, 1})
+	}
+	for _, kd := range kinds {
+		for i := 0; i < len(singles); i += batch {
+			j := i + batch
+			if j > len(singles) {
+				j = len(singles)
+			}
+			part := singles[i:j]
+			sc := &world.Scenario{Nodes: T3m(), Bound: 0, Family: "assigned-slot-single", Horizon: 1 << 20, InputEnum: true}
+			cs := world.ClientSpec{}
+			var raws [][]byte
+			for n, k := range part {
+				raw := kd.mk(k)
+				raws = append(raws, raw)
+				cs.Chunks = append(cs.Chunks, world.Chunk{Data: raw, WaitReplies: n})
+				cs.Reqs = append(cs.Reqs, raw)
+				cs.Expect = append(cs.Expect, nil)
+			}
+			sc.Clients = []world.ClientSpec{cs}
+			sc.Name = fmt.Sprintf("C05/e1/%s/batch%d(%q ..)", kd.kind, i/batch, part[0])
+			pos := kd.pos
+			sc.Check = func(w *world.World) []world.Violation {
+				data := w.DataCmds("")
+				for n, rec := range data {
+					if n >= len(part) || pos >= len(rec.Args) {
+						break
+					}
+					k := []byte(part[n])
+					m := w.Sc.MasterOf(world.SpecSlot(k))
+					if !bytes.Equal(lowerName(append([]byte{}, rec.Raw...)), lowerName(append([]byte{}, raws[n]...))) {
+						return []world.Violation{{Sig: "assigned-slot-differs", Msg: fmt.Sprintf("request %q reached a node as %q", raws[n], rec.Raw)}}
+					}
+					if m == nil || m.Addr != rec.Addr {
+						return []world.Violation{{Sig: "assigned-slot-differs", Msg: fmt.Sprintf("key %q (specification slot %d, owner %s) was sent to %s inside %q", k, world.SpecSlot(k), m.Addr, rec.Addr, rec.Raw)}}
+					}
+				}
+				if len(data) != len(part) {
+					return []world.Violation{{Sig: "assigned-slot-differs", Msg: fmt.Sprintf("%d single-key requests sent, %d reached a node", len(part), len(data))}}
+				}
+				return CheckStreams(w, StreamOpts{})
+			}
+			out = append(out, sc)
+		}
+	}
 	return out
 }
 
@@ -626,6 +695,21 @@ func c19Scenarios(tier string) []*world.Scenario {
 		out = append(out, c02Seg("get", world.Cmd("get", keysA[0]), rep, nil, nil, true, b))
 		out[len(out)-1].Name = fmt.Sprintf("C19/slow-reader/reply%d/d%d", len(rep), b)
 		out[len(out)-1].Family = "slow-reader"
+	}
+	// production sizes (64 KiB ring part, overflow list behind it): replies of 64 KiB and more to a slow reader
+	for _, sz := range [][]int{{100, 70000, 70000}, {70000, 66000, 100}, {140000, 10, 65536}} {
+		sc := BigSlowRecycle("C19", sz, 60000, b)
+		inner := sc.Check
+		sc.Check = func(w *world.World) []world.Violation {
+			vs := inner(w)
+			for i := range vs {
+				if vs[i].Sig == "corrupt" || vs[i].Sig == "forwarded-swap" {
+					vs[i].Sig = "slow-reader-stream-corrupt"
+				}
+			}
+			return vs
+		}
+		out = append(out, sc)
 	}
 	return out
 }
